@@ -1,3 +1,4 @@
+mod map;
 mod wal;
 use vcore::Args;
 
@@ -5,6 +6,7 @@ fn main() {
     let args = Args::from_env();
     match args.cmd().as_str() {
         "wal" => wal::main(&args),
+        "map" => map::main(&args),
         "wal-images" => wal::images_main(&args),
         other => {
             eprintln!("unknown subcommand {other:?}");
